@@ -242,10 +242,10 @@ fn run_child_follow(script: &[Ev], prefix: &[usize], work: &Path, follow: Option
         match child.try_wait() {
             Ok(Some(_)) => break child.wait_with_output().map_err(|e| e.to_string())?,
             Ok(None) => {
-                if start.elapsed() > std::time::Duration::from_secs(300) {
+                if start.elapsed() > std::time::Duration::from_secs(1500) {
                     let _ = child.kill();
                     let _ = child.wait();
-                    return Err("child timed out after 300 s".into());
+                    return Err("child timed out after 1500 s".into());
                 }
                 std::thread::sleep(std::time::Duration::from_millis(5));
             }
